@@ -219,6 +219,8 @@ func runTraps(p *core.Prog, r *core.Report, reach map[*ssa.Function]bool, parser
 					u := core.ClassifyErr(info, body, c)
 					if u.Kind == "if-return" || u.Kind == "returned" {
 						r.Ok("RES", key, p.Pos(c.Pos()), "the parse error is returned before the result is read")
+					} else if u.Kind == "if-nil-success" && readOnlyIn(info, body, c, u.If) {
+						r.Ok("RES", key, p.Pos(c.Pos()), "the result is read only on the branch where the parse error is nil")
 					} else if u.Kind == "unchecked" && strings.Contains(u.Why, "accumulator") == false && assignedErrField(info, c, t) {
 						r.Ok("RES", key, p.Pos(c.Pos()), "result and error are stored together and the error is tested by the caller")
 					} else {
@@ -377,6 +379,40 @@ func (t *trapCtx) commit(info *types.Info, body *ast.BlockStmt, label string, cl
 }
 
 // assignedErrField: `s.res, errs[i].err = p.Parse(...)` style: both results stored, error examined by the loop that follows.
+// readOnlyIn: after the call `res, err = p.Parse(..)` the result operand is read
+// nowhere in body but inside the statement `in` (the branch taken when the error is nil).
+func readOnlyIn(info *types.Info, body *ast.BlockStmt, c *ast.CallExpr, in *ast.IfStmt) bool {
+	par := core.Parents(body)
+	as, ok := par[c].(*ast.AssignStmt)
+	if !ok || len(as.Lhs) != 2 || in == nil {
+		return false
+	}
+	want := types.ExprString(as.Lhs[0])
+	if want == "_" {
+		return true
+	}
+	ok = true
+	ast.Inspect(body, func(n ast.Node) bool {
+		if n == ast.Node(in.Body) {
+			return false
+		}
+		e, isExpr := n.(ast.Expr)
+		if !isExpr || e.Pos() <= c.End() || types.ExprString(e) != want {
+			return true
+		}
+		if a2, isAs := par[n].(*ast.AssignStmt); isAs {
+			for _, l := range a2.Lhs {
+				if l == e {
+					return true // written, not read
+				}
+			}
+		}
+		ok = false
+		return false
+	})
+	return ok
+}
+
 func assignedErrField(info *types.Info, c *ast.CallExpr, t *trapCtx) bool {
 	as, ok := t.nn.par[c].(*ast.AssignStmt)
 	if !ok || len(as.Lhs) != 2 {
